@@ -214,7 +214,7 @@ var Profiles = map[string]*Profile{
 	"C03": {Name: "C03", Prop: "C03", Weights: weights(map[string]int{"probe": 14, "delete": 22, "backup": 0, "pkg": 1, "ro": 4}), Own: own("consume"), TinyRollBias: true},
 	"C04": {Name: "C04", Prop: "C04", Weights: weights(map[string]int{"probe": 14, "delete": 22, "backup": 0, "pkg": 1, "ro": 4}), Own: own("get"), TinyRollBias: true},
 	"C09": {Name: "C09", Prop: "C09", Weights: weights(map[string]int{"delete": 20, "backup": 0, "pkg": 1}), Own: own("key"), TinyRollBias: true},
-	"C10": {Name: "C10", Prop: "C10", Weights: weights(map[string]int{"delete": 20, "backup": 0, "pkg": 1, "compact": 2}), Own: own("time"), ForceMono: true, TinyRollBias: true},
+	"C10": {Name: "C10", Prop: "C10", Weights: weights(map[string]int{"probe": 10, "delete": 20, "backup": 0, "pkg": 1, "compact": 2}), Own: own("time"), ForceMono: true, TinyRollBias: true},
 	"C11": {Name: "C11", Prop: "C11", Weights: weights(map[string]int{"reopen": 18, "migrate": 5, "backup": 0, "ro": 1}), Own: own("index", "rmidx", "layout")},
 	"C12": {Name: "C12", Prop: "C12", Weights: weights(map[string]int{"delete": 30, "trim": 2, "compact": 2, "backup": 0, "ro": 0, "pkg": 1}), Own: own("delete", "scan")},
 	"C13": {Name: "C13", Prop: "C13", Weights: weights(map[string]int{"backup": 0, "ro": 2, "reopen": 14}), Own: own("stat", "size", "layout")},
